@@ -365,10 +365,10 @@ REGISTRY["C02"]["teq"].append({"engine": "failpath", "quick": {"n": 4, "burst_ev
                                 "nontrivial": lambda case, res: "failpath-burst" in case, "distinct_key": lambda case, res: case,
                                 "what": "bursts: 9-14 thousand one-block inserts pile up behind the buffer-full trigger, whose background passes span several journal batches and are still running when flush() is called; half of the bursts also fail one journal write once. flush() is repeated until it answers Ok; at that instant every accepted key must be published on the device (oracle on the live snapshot) and readable"})
 for _pid, _off in (("C09", 9), ("C05", 5)):
-    REGISTRY[_pid]["teq"].append({"engine": "failpath", "quick": {"n": 60, "seedoff": 400 + _off}, "thorough": {"n": 2500, "seedoff": 400 + _off},
+    REGISTRY[_pid]["teq"].append({"engine": "failpath", "quick": {"n": 60, "big_every": 20, "seedoff": 400 + _off}, "thorough": {"n": 2500, "big_every": 25, "seedoff": 400 + _off},
                                   "oracle": True, "mismatch_is_failure": True, "timeout": 3400,
                                   "nontrivial": lambda case, res: "r=io" in res or "r=indet" in res or "r=space" in res, "distinct_key": lambda case, res: case,
-                                  "what": "T-eq for Model.FailPath: one shard's write path with the periodic coordinator paused (hook H11) and the pwrite path forced, so that the device calls of every flush() are numbered deterministically; an observer fails the calls named by a random plan (0-30 % of the first 90 calls, before or after the call), on roomy and on nearly full devices; 1-3 rounds of 0-3 inserts of 1-3 blocks and a flush. After every flush the result class (Ok / IoError / IndeterminateWrite / OutOfSpace), the allocator statistics, the disk-usage counter, the published records with their sectors and the number of device calls made must equal Model.FailPath.flush on the same plan. Oracle independent of the model: every accepted key stays readable with its bytes whatever failed; a flush that returned Ok left every earlier key published"})
+                                  "what": "T-eq for Model.FailPath: one shard's write path with the periodic coordinator paused (hook H11) and the pwrite path forced, so that the device calls of every flush() are numbered deterministically; an observer fails the calls named by a random plan (0-30 % of the first 90 calls, before or after the call), on roomy and on nearly full devices; 1-3 rounds of 0-3 inserts of 1-3 blocks and a flush. After every flush the result class (Ok / IoError / IndeterminateWrite / OutOfSpace), the allocator statistics, the disk-usage counter, the published records with their sectors and the number of device calls made must equal Model.FailPath.flush on the same plan. Every 20th case (thorough: 25th) is a pass over several journal transactions (T-eq with Model.FailBatches, hook H16 pausing the buffer-full trigger): 1025-2300 entries of one shard wait in the queue, the flush drains them in one pass of two or three batches, up to three device calls around the batch boundaries fail, flush is repeated; the same observables must equal Model.FailBatches.pflush. Oracle independent of the model: every accepted key stays readable with its bytes whatever failed; a flush that returned Ok left every earlier key published; the shard counters equal the queue lengths (H15)"})
 for _asan in (False, True):
     REGISTRY["C20"]["teq"].append({"engine": "abuf", "quick": {"n": 1500, "seedoff": 20}, "thorough": {"n": 30000, "seedoff": 20}, "asan": _asan,
                                     "oracle": True, "mismatch_is_failure": True, "timeout": 3400,
